@@ -152,8 +152,11 @@ pub struct Sig {
 }
 
 pub fn signatures(o: &Outcome) -> Sig {
+    signatures_of_trace(&o.run.trace)
+}
+
+pub fn signatures_of_trace(tr: &[(usize, &'static str)]) -> Sig {
     let mut sig = Sig::default();
-    let tr = &o.run.trace;
     let n_threads = tr.iter().map(|(t, _)| *t).max().map_or(0, |m| m + 1);
     // per thread state while scanning
     let mut loaded_tail_at: Vec<Option<usize>> = vec![None; n_threads];
